@@ -158,7 +158,7 @@ func gkrPoseidonCase(inst int) *gcase {
 	}
 	f377 := sField{Name: "bls12_377", Q: ecc.BLS12_377.ScalarField(), Curve: ecc.BLS12_377}
 	return &gcase{
-		Name: fmt.Sprintf("gkr/poseidon2-compress/inst%d", inst), Circuit: mk(), NeedsCommit: true, Field: &f377, MaxFaults: 10,
+		Name: fmt.Sprintf("gkr/poseidon2-compress/inst%d", inst), Circuit: mk(), NeedsCommit: true, Field: &f377, MaxFaults: 4,
 		Assign: func(tape *simrt.Tape, q *big.Int) (frontend.Circuit, bool, func(map[int][]*big.Int) string, string) {
 			c := mk()
 			want := make([]*big.Int, inst)
@@ -220,8 +220,84 @@ func gkrPoseidonCase(inst int) *gcase {
 	}
 }
 
+// series dependencies: the x input of some instances is the z = x*y output of another instance
+// (chains that force the solver to reorder the instances)
+type gkrSeriesCircuit struct {
+	X, Y []frontend.Variable
+	deps [][2]int // (input instance, output instance): X[in] := z[out]
+}
+
+func (c *gkrSeriesCircuit) Define(api frontend.API) error {
+	g := gkr.NewApi()
+	xs := append([]frontend.Variable{}, c.X...)
+	for _, d := range c.deps {
+		xs[d[0]] = nil
+	}
+	x, err := g.Import(xs)
+	if err != nil {
+		return err
+	}
+	y, err := g.Import(c.Y)
+	if err != nil {
+		return err
+	}
+	z := g.Mul(x, y)
+	for _, d := range c.deps {
+		g.Series(x, z, d[0], d[1])
+	}
+	sol, err := g.Solve(api)
+	if err != nil {
+		return err
+	}
+	out := sol.Export(z)
+	probe(api, 1, out...)
+	return sol.Verify("mimc", out...)
+}
+
+func gkrSeriesCase(name string, inst int, deps [][2]int) *gcase {
+	mk := func() *gkrSeriesCircuit {
+		return &gkrSeriesCircuit{X: make([]frontend.Variable, inst), Y: make([]frontend.Variable, inst), deps: deps}
+	}
+	return &gcase{
+		Name: "gkr/series/" + name, Circuit: mk(), NeedsCommit: true,
+		Assign: func(tape *simrt.Tape, q *big.Int) (frontend.Circuit, bool, func(map[int][]*big.Int) string, string) {
+			c := mk()
+			xs, ys := make([]*big.Int, inst), make([]*big.Int, inst)
+			for i := 0; i < inst; i++ {
+				xs[i], ys[i] = drawBiased(tape, q), drawBiased(tape, q)
+				c.X[i], c.Y[i] = xs[i], ys[i]
+			}
+			// direct evaluation in dependency order
+			from := map[int]int{}
+			for _, d := range deps {
+				from[d[0]] = d[1]
+				c.X[d[0]] = 0 // unused: the value comes from the other instance
+			}
+			z := make([]*big.Int, inst)
+			var eval func(i int) *big.Int
+			eval = func(i int) *big.Int {
+				if z[i] != nil {
+					return z[i]
+				}
+				x := xs[i]
+				if j, ok := from[i]; ok {
+					x = eval(j)
+				}
+				z[i] = new(big.Int).Mul(x, ys[i])
+				z[i].Mod(z[i], q)
+				return z[i]
+			}
+			for i := range z {
+				eval(i)
+			}
+			return c, true, func(p map[int][]*big.Int) string { return eqInts(p[1], z...) }, fmt.Sprintf("x=%v y=%v deps=%v", xs, ys, deps)
+		},
+	}
+}
+
 var c19Cases = []*gcase{
-	gkrPoseidonCase(2), gkrPoseidonCase(3), gkrPoseidonCase(8),
+	gkrSeriesCase("swap", 2, [][2]int{{0, 1}}), gkrSeriesCase("chain3of4", 4, [][2]int{{0, 2}, {2, 1}}), gkrSeriesCase("chain4", 4, [][2]int{{1, 3}, {3, 0}, {0, 2}}), gkrSeriesCase("identity-order", 4, [][2]int{{1, 0}, {2, 1}}),
+	gkrPoseidonCase(2), gkrPoseidonCase(3),
 	gkrCase(0, 2), gkrCase(0, 4), gkrCase(1, 2), gkrCase(1, 8), gkrCase(2, 4), gkrCase(2, 16), gkrCase(3, 2), gkrCase(3, 4),
 }
 
